@@ -460,6 +460,7 @@ def run(res, facts, tier):
     r5_priority(res, facts)
     r6_alternative(res, facts)
     r7_imports(res, facts)
+    r8_coverage(res, facts)
 
 
 def r7_imports(res, facts):
@@ -537,4 +538,82 @@ def r7_imports(res, facts):
             r.ok('Stylesheet::addImport: inserts at m_imports.begin()')
         else:
             r.violation('Stylesheet::addImport', 'a newly imported stylesheet is not put in front of the earlier imports (%s): the first xsl:import would win' % (pp(ins[0])[:60] if ins else 'no insertion'), common.file_line(b))
+    return r
+
+
+def r8_coverage(res, facts):
+    """findTemplate looks a node up in the list of its kind (locateMatchPatternDataList).  addTemplate must file an entry in every list whose
+    nodes the alternative can match; a missing list loses the rule for that node kind (an extra list only costs a failed match test)."""
+    r = res.rule('C10-R8', 'Stylesheet::addTemplate files each entry in every lookup list whose node kind the alternative can match (decided by interpreting its dispatch on the pseudo name and '
+                 'target type getTargetData produces): text() -> text, comment() -> comment, processing-instruction() -> pi, / -> root, node() -> element + text + comment + pi, '
+                 '* -> element, @* -> attribute, id()/key() -> every list, a name -> the per-name table of its kind', floor=9)
+    a = facts.asts('Stylesheet::addTemplate')[0]
+    loop = None
+    for x in walk(a['body']):
+        if x.get('k') == 'For' and any((c.get('n') or '') == 'createXalanMatchPatternData' for c in calls(x)):
+            loop = x
+    if loop is None:
+        raise AnalysisBroken('addTemplate: the loop over the target data is gone')
+    body = loop['body']
+    # statements after the entry is created: the if-chain on the pseudo name
+    chain = [s for s in body.get('c', []) if s.get('k') == 'If']
+    if not chain:
+        raise AnalysisBroken('addTemplate: no dispatch on the pseudo name')
+    tt = {n.split('::')[-1]: v for n, v in facts.enumconst.items() if '::XPath::TargetData::e' in n}
+    CASES = [
+        ('TEXT', 'eOther', {'text'}), ('COMMENT', 'eOther', {'comment'}), ('PI', 'eOther', {'pi'}), ('ROOT', 'eOther', {'root'}),
+        ('NODE', 'eOther', {'elementAny', 'text', 'comment', 'pi'}),
+        ('ANY', 'eElement', {'elementAny'}), ('ANY', 'eAttribute', {'attributeAny'}),
+        ('ANY', 'eAny', {'elementAny', 'attributeAny', 'text', 'comment', 'pi', 'root'}),
+        ('name', 'eElement', {'elementTable[name]'}), ('name', 'eAttribute', {'attributeTable[name]'}),
+    ]
+    LIST = {'m_textPatternList': 'text', 'm_commentPatternList': 'comment', 'm_piPatternList': 'pi', 'm_rootPatternList': 'root', 'm_nodePatternList': 'node',
+            'm_elementAnyPatternList': 'elementAny', 'm_attributeAnyPatternList': 'attributeAny'}
+    for pseudo, ttype, need in CASES:
+        filed = set()
+
+        def hook(m, c, pseudo=pseudo, ttype=ttype):
+            n = c.get('n') or callee(c).split('::')[-1]
+            if n == 'equals':
+                x, y = m.ev(c['args'][0]), m.ev(c['args'][1])
+                return int(x == y)
+            if n == 'getTargetType':
+                return tt[ttype]
+            if n == 'addToList':
+                t = strip_casts(c['args'][0])
+                if t.get('k') == 'Member':
+                    filed.add(LIST.get(t['m'], t['m']))
+                elif t.get('k') == 'OpCall' and t.get('op') == '[]':
+                    base = strip_casts(t['args'][0])
+                    filed.add({'m_elementPatternTable': 'elementTable[name]', 'm_attributePatternTable': 'attributeTable[name]'}.get(base.get('m'), pp(t)))
+                else:
+                    filed.add(pp(t))
+                return 0
+            if c['k'] == 'OpCall' and c['op'] == '[]':
+                return 0
+            return NotImplemented
+
+        def ghook(q):
+            if 'PSEUDONAME_' in q:
+                return q.split('PSEUDONAME_')[-1]
+            return NotImplemented
+        env = {}
+        for x in walk(a['body']):
+            if x.get('k') == 'Decl':
+                for v in x.get('vars', []):
+                    if v['n'] == 'tempString':
+                        env[v['id']] = pseudo
+        m = Machine(env, call_hook=hook, global_hook=ghook)
+        try:
+            for s in chain:
+                m.exec(s)
+        except Unsupported as u:
+            raise AnalysisBroken('addTemplate dispatch outside the interpreted subset: %s' % u)
+        site = 'addTemplate: entry for %s' % {'TEXT': 'text()', 'COMMENT': 'comment()', 'PI': 'processing-instruction()', 'ROOT': '/', 'NODE': 'node()',
+                                            'ANY': {'eElement': '*', 'eAttribute': '@*', 'eAny': 'id() / key()'}.get(ttype, '*'), 'name': 'a name test (%s)' % ttype[1:].lower()}[pseudo]
+        missing = need - filed
+        if missing:
+            r.violation(site, 'filed in %s; nodes looked up in %s never see the rule' % (sorted(filed) or 'no list', sorted(missing)), common.file_line(a, chain[0]))
+        else:
+            r.ok(site, 'filed in %s' % sorted(filed))
     return r
